@@ -3,7 +3,9 @@ CONSTANTS
   P = 9
   NPar = 2
   ErFrom = 3
-  TocFrom = 7
+  LogStart = 3
+  LogEnd = 5
+  ParStart = 6
   NAtt = 4
   MaxFaults = 99
   FaultBy = {"sender", "driver", "cf1", "cf2"}
